@@ -571,7 +571,28 @@ def rule_identity(chk, prog):
   _c14.rule_dfi_weights(chk, prog, count_rule='C12.8-counts-from-model-times-are-rounded')
 
 
+def rule_filter_normalisation(chk, prog):
+  """C12.10: the diffusion filter's time scale is fixed by scale·|λ_top|^order = dt/τ; λ_top must be the grid's own eigenvalue (which carries
+  1/radius²) — a normalisation rebuilt from the bare wavenumber is right only for a unit non-dimensional radius. Instances of C15.9 re-filed."""
+  from sa import report
+  from rules import c15
+  rule = 'C12.10-filter-normalisation-uses-the-grid-spectrum'
+  probe = report.Check('C12-probe')
+  c15.rule_diffusion_step(probe, prog)
+  keep = [i for i in probe.instances if i['rule'] == 'C15.9-top-mode']
+  if not keep:
+    raise AnalysisError('C12: the top-mode instances of C15.9 were not produced')
+  for i in keep:
+    i = dict(i, rule=rule)
+    chk.instances.append(i)
+    if i['status'] != 'holds':
+      chk.violations.append(i)
+  if all(i['status'] == 'holds' for i in keep):
+    chk.at_least(rule, 2)
+
+
 def run(chk, prog, tier):
+  rule_filter_normalisation(chk, prog)
   rule_identity(chk, prog)
   rule_si_dimensions(chk, prog)
   rule_default_scale(chk, prog)
